@@ -101,7 +101,7 @@ def taylor_coefficients(inst, bound=4096):
 
 
 # ------------------------------------------------------------------ instance generation
-def gen_instance(rng, *, ssm, q, d, k, nsteps, cal, lin=None, exact=None, initc=False, kind=None, simple=False, lam_one=False, bound=4096):
+def gen_instance(rng, *, ssm, q, d, k, nsteps, cal, lin=None, exact=None, initc=False, kind=None, simple=False, lam_one=False, bound=4096, diffuse=0):
     """one KalmanExact instance for the documented structure of `ssm`; `kind` in {None, 'decoupled', 'scalarjac'}"""
     lin = lin or rng.choice(LIN_OF[ssm])
     small = simple or nsteps == 2 or q == 2
@@ -144,6 +144,14 @@ def gen_instance(rng, *, ssm, q, d, k, nsteps, cal, lin=None, exact=None, initc=
     m0 = taylor_coefficients(inst, bound=bound)
     if m0 is None:
         return None
+    # diffuse derivatives: only the first q + 1 - diffuse coefficients are handed to the prior; the appended ones have
+    # mean zero and standard deviation deps (prior_wiener_integrated(..., diffuse_derivatives=diffuse, diffuse_eps=deps))
+    diffuse = min(diffuse, q + 1 - k)  # the ODE needs its k arguments among the given coefficients
+    inst["diffuse"] = int(diffuse)
+    inst["deps"] = rng.choice([F(1), F(1, 2), F(2)])
+    if diffuse:
+        given = q + 1 - diffuse
+        m0 = [x if (idx // d) < given else F(0) for idx, x in enumerate(m0)]
     inst["m0"] = m0
     return inst
 
@@ -154,6 +162,8 @@ def tla_instance(inst, laws=True):
     rec = {k: inst[k] for k in ("q", "d", "k", "nsteps", "lin", "cal", "percal", "initc")}
     for k in ("t0", "h", "eps", "damp"):
         rec[k] = F(inst[k])
+    rec["diffuse"] = int(inst.get("diffuse", 0))
+    rec["deps"] = F(inst.get("deps", 1))
     for k in ("lam", "m0") + COEF_KEYS:
         rec[k] = ratify(inst[k])
     rec["laws"] = bool(laws)
@@ -166,20 +176,20 @@ def describe(inst):
 
 # ------------------------------------------------------------------ the real solvers
 def _config(inst, ssm, strategy, nsteps=None, lin=None, cal=None):
-    return (ssm, inst["q"], inst["d"], inst["k"], lin or inst["lin"], cal or inst["cal"], strategy, nsteps or inst["nsteps"], inst["eps"] == 0, inst["initc"])
+    return (ssm, inst["q"], inst["d"], inst["k"], lin or inst["lin"], cal or inst["cal"], strategy, nsteps or inst["nsteps"], inst["eps"] == 0, inst["initc"], int(inst.get("diffuse", 0)))
 
 
 @functools.lru_cache(maxsize=None)
 def _runner(cfg):
     """jitted real solve for one configuration; everything numeric is an argument (one compilation per configuration)"""
-    ssm_name, q, d, k, lin, cal, strategy, nsteps, exact, initc = cfg
+    ssm_name, q, d, k, lin, cal, strategy, nsteps, exact, initc, diffuse = cfg
 
-    def run(par, tc, lam, eps, damp, grid):
+    def run(par, tc, lam, eps, damp, grid, deps):
         ode = _ode(k, par)
         ssm = SSMS[ssm_name]()
-        tcoeffs = [tc[j] for j in range(q + 1)]
+        tcoeffs = [tc[j] for j in range(q + 1 - diffuse)]
         base = lam[0] if ssm_name == "iso" else lam
-        prior = ssm.prior_wiener_integrated(tcoeffs, is_exact=exact, inexact_eps=eps, output_scale=base)
+        prior = ssm.prior_wiener_integrated(tcoeffs, is_exact=exact, inexact_eps=eps, output_scale=base, diffuse_derivatives=diffuse, diffuse_eps=deps)
         constraint = ssm.constraint_ode_ts0(ode) if lin == "ts0" else ssm.constraint_ode_ts1(ode)
         solver = SOLVERS[cal](strategy=STRATEGIES[strategy](), constraint=constraint, constraint_init=constraint if initc else None)
         sol = ivpsolve.solve_fixed_grid(solver=solver)(prior, grid=grid, damp=damp)
@@ -210,7 +220,7 @@ def run_real(inst, ssm, strategy, *, nsteps=None, lin=None, cal=None, grid=None)
         grid = [float(inst["t0"]) + j * float(inst["h"]) for j in range(nsteps + 1)]
     with warnings.catch_warnings():
         warnings.simplefilter("ignore")
-        out = _runner(cfg)(_par(inst), tc, lam, float(inst["eps"]), float(inst["damp"]), jnp.asarray(grid, dtype=jnp.float64))
+        out = _runner(cfg)(_par(inst), tc, lam, float(inst["eps"]), float(inst["damp"]), jnp.asarray(grid, dtype=jnp.float64), float(inst.get("deps", 1)))
     return {k: np.asarray(v) for k, v in out.items()}
 
 
@@ -476,7 +486,7 @@ def run_jobs(jobs, groupkey):
 
 
 # ------------------------------------------------------------------ exact instance plans
-def plan_exact(rng, *, per_combo, cals_per_combo, ssms=("dense", "iso", "bd"), shapes=SHAPES, kinds=(None,), p_initc=0.15, p_lam_one=0.0):
+def plan_exact(rng, *, per_combo, cals_per_combo, ssms=("dense", "iso", "bd"), shapes=SHAPES, kinds=(None,), p_initc=0.15, p_lam_one=0.0, p_diffuse=0.0):
     """instances over ssm x shape x steps x linearisation (x a rotating subset of the calibration modes)"""
     insts = []
     rot = 0
@@ -489,8 +499,10 @@ def plan_exact(rng, *, per_combo, cals_per_combo, ssms=("dense", "iso", "bd"), s
                         # one configuration (exactness, initial constraint) per combo so that its instances share a compilation
                         exact = rng.random() < 0.6
                         initc = (not exact) and rng.random() < p_initc * 2.5
+                        # a third of the combinations use diffuse derivatives (one per combination: shared compilation)
+                        diffuse = rng.randint(1, q) if (q + 1 - k >= 1 and rng.random() < p_diffuse) else 0
                         for _ in range(per_combo * (2 if nsteps == 2 or q * d >= 4 else 1)):
-                            x = gen_instance(rng, ssm=ssm, q=q, d=d, k=k, nsteps=nsteps, cal=cal, lin=lin, exact=exact, initc=initc, kind=rng.choice(list(kinds)), lam_one=rng.random() < p_lam_one)
+                            x = gen_instance(rng, ssm=ssm, q=q, d=d, k=k, nsteps=nsteps, cal=cal, lin=lin, exact=exact, initc=initc, kind=rng.choice(list(kinds)), lam_one=rng.random() < p_lam_one, diffuse=diffuse)
                             if x is not None:
                                 insts.append(x)
                     rot += cals_per_combo
